@@ -7,6 +7,14 @@ import torch
 from .polynomial_kernel import PolynomialKernel
 
 
+def _scaled_pow(coeff, base: torch.Tensor, exponent) -> torch.Tensor:
+    # coeff * base^exponent.  For power <= 1 a derivative factor vanishes identically (coeff == 0) while the exponent is
+    # negative: 0 * base^-1 would be nan wherever x1^T x2 + offset == 0.
+    if coeff == 0:
+        return torch.zeros_like(base)
+    return coeff * base.pow(exponent)
+
+
 class PolynomialKernelGrad(PolynomialKernel):
     def forward(
         self,
@@ -27,8 +35,8 @@ class PolynomialKernelGrad(PolynomialKernel):
             K11_diag = base_diag.pow(self.power)
 
             all_outers_diag = (x1 * x2).transpose(-2, -1).reshape(*batch_shape, -1)
-            K22_base_diag = self.power * (self.power - 1) * base_diag.pow(self.power - 2)
-            K12_base_diag = self.power * base_diag.pow(self.power - 1)
+            K22_base_diag = _scaled_pow(self.power * (self.power - 1), base_diag, self.power - 2)
+            K12_base_diag = _scaled_pow(self.power, base_diag, self.power - 1)
 
             K22_diag = torch.add(
                 all_outers_diag * K22_base_diag.repeat(*([1] * (K22_base_diag.dim() - 1)), d),
@@ -45,7 +53,7 @@ class PolynomialKernelGrad(PolynomialKernel):
             base_inner_prod = torch.matmul(x1, x2.transpose(-2, -1)) + offset
             K11 = base_inner_prod.pow(self.power)
 
-            K12_base = self.power * base_inner_prod.pow(self.power - 1)
+            K12_base = _scaled_pow(self.power, base_inner_prod, self.power - 1)
             K12 = torch.zeros(*batch_shape, n1, n2 * d, dtype=x1.dtype, device=x1.device)
 
             ones_ = torch.ones(*batch_shape, d, 1, n2, dtype=x1.dtype, device=x1.device)
@@ -56,7 +64,7 @@ class PolynomialKernelGrad(PolynomialKernel):
             K21_outer_prods = torch.matmul(ones_, x2.transpose(-2, -1).unsqueeze(-2))
             K21 = (K12_base.unsqueeze(-3) * K21_outer_prods).view(*batch_shape, d * n1, n2)
 
-            K22_base = self.power * (self.power - 1) * base_inner_prod.pow(self.power - 2)
+            K22_base = _scaled_pow(self.power * (self.power - 1), base_inner_prod, self.power - 2)
             K22 = torch.zeros(*batch_shape, n1 * d, n2 * d, dtype=x1.dtype, device=x1.device)
             all_outers = x1.unsqueeze(-2).unsqueeze(-2).transpose(-2, -1).matmul(x2.unsqueeze(-3).unsqueeze(-2))
             all_outers = all_outers.transpose(-4, -2).transpose(-3, -1)
